@@ -167,6 +167,8 @@ def generate(rng, tier):
             c.update(routine=rng.choice(['fixed', 'bootstrap_rdm', 'bootstrap_pattern', 'bootstrap', 'crossval', 'direct',
                                          'bootcv_pattern', 'bootcv_rdm', 'bootcv_both', 'bootcv_pattern', 'bootcv_rdm']),
                      n_rdm=rng.randint(3, 8), n_cond=rng.randint(4, 6), n_model=rng.randint(1, 3), N=rng.randint(4, 7))
+            if c['routine'] == 'fixed' and rng.random() < 0.4:
+                c['n_rdm'] = 1           # a single data RDM: dof = 0 (seeded change C16-m9: falsy values dropped on saving)
             if c['routine'] == 'direct' and rng.random() < 0.5:
                 c['n_model'] = rng.choice([11, 12])      # HDF5 lists group members alphabetically: model_10 before model_2
         else:
